@@ -865,6 +865,10 @@ pub struct AggCase {
     pub attempt: Attempt,
     /// current KES period of the chain = start period of the submitted certificate + evolution of the signature + d
     pub period: PeriodSel,
+    /// the verifier is long-lived: before the attempt it has verified the GENUINE registration of every pool of the
+    /// case (whatever it remembers from them must not help a later splice)
+    #[serde(default)]
+    pub warm: bool,
 }
 
 #[derive(Clone, Copy, Debug, Serialize, Deserialize)]
@@ -950,6 +954,25 @@ fn agg_case(c: &AggCase) -> Report {
     };
     let verifier = MithrilSignerRegistrationVerifier::new(Arc::new(Observer(period)));
     let rt = tokio::runtime::Builder::new_current_thread().enable_all().build().expect("runtime");
+    if c.warm {
+        rep.label("agg-warm-verifier");
+        for p in 0..c.pools.len() {
+            let base = ((p as u32 * 65536 / c.pools.len() as u32) as u16).saturating_add(1);
+            let g = resolve(&as_case, &[], &AttemptSpec::New(Attempt { base, other: 0, muts: vec![] }));
+            if let Ok(t) = typed(&g.reg) {
+                let genuine = mithril_common::entities::Signer {
+                    party_id: g.reg.claim.clone().unwrap_or_default(),
+                    verification_key_for_concatenation: ProtocolKey::new(t.vk),
+                    verification_key_signature_for_concatenation: t.sig.map(ProtocolKey::new),
+                    operational_certificate: t.opcert.map(ProtocolKey::new),
+                    kes_evolutions: g.reg.announced.map(KesEvolutions),
+                };
+                if let Ok(Ok(_)) = catch(|| rt.block_on(verifier.verify(&genuine, &dist))) {
+                    rep.label("agg-warm-verifier:genuine-accepted");
+                }
+            }
+        }
+    }
     let verdict = catch(|| rt.block_on(verifier.verify(&signer, &dist)));
     let broken = conj.broken();
     if broken.len() == 1 {
@@ -1157,7 +1180,8 @@ fn agg_strategy(seeds: Vec<u64>, fresh: Vec<u64>) -> impl Strategy<Value = AggCa
         ],
     )
         .prop_filter("two distinct pools", |(p, _, _, _)| p.len() >= 2)
-        .prop_map(move |(pools, extra, attempt, period)| AggCase { pools, fresh: fresh.clone(), extra, attempt, period })
+        .prop_map(move |(pools, extra, attempt, period)| AggCase { pools, fresh: fresh.clone(), extra, attempt, period, warm: false })
+        .prop_flat_map(|c| any::<bool>().prop_map(move |warm| AggCase { warm, ..c.clone() }))
 }
 
 /// per-run pool of operator seeds (pure function of the run seed); the material is built once, in parallel
